@@ -2,6 +2,8 @@
 From Coq Require Import String Ascii List Bool Arith NArith ZArith.
 From KV Require Import Lib.Str Lib.ByteSeq Gen.CxxConn Gen.ProtoTmpl Model.Conn Model.Proto
                        Proofs.ByteSeqProofs Proofs.ConnProofs Proofs.ProtoProofs Proofs.ProtoSize.
+From KV Require Import Model.Engine Model.EngineSM Model.EngineDomain16 Model.Parse16 Spec.RefExpand Spec.RefExpand16 Model.ProtoRender Proofs.ProtoBridge.
+Import KV.Lib.ByteSeq KV.Model.Conn KV.Model.Proto.
 From KV Require Model.ProtoLang Model.Layout.
 (* not used by the statements below: extracted into build/kmodel together with the models of this closure (see Props/C14.v) *)
 From KV Require Spec.StreamParse.
@@ -36,6 +38,56 @@ Theorem C13_unknown_id : forall ifc unh m,
   dispatch ifc unh m = if unh then [NotHandled m] else [].
 Proof. exact dispatch_miss. Qed.
 Print Assumptions C13_unknown_id.
+
+(* THE ENGINE'S OUTPUT.  The shipped protocol_templates/CPP/TEMPLATEReceiver.cpp and TEMPLATETransmitter.cpp lie, as whole files, in the template
+   grammar of C16 (with <<<MSGID>>> in per-message blocks and text after an end tag).  For EVERY interface (message names, type ids,
+   sizes, in interface order; the other struct lists arbitrary) with distinct message names that is admitted for the file (rx_wf / tx_wf:
+   computed) and every assignment of user tags: what smgen's pipeline writes from the shipped Receiver template is the reference expansion of
+   the file; its 26th item is the per-message block of the switch, and that block expands to exactly one line
+       case <id>: On<Msg>Received(reinterpret_cast<const <Msg>*>(&data_buffer[0])); break;
+   per message, in interface order, <id> being the type id as the interface prints it (0 is printed as 0: no case is dropped). *)
+Theorem C13_receiver_engine : forall (structs protos : list string) (i : ifc3) (a : Engine.usertags),
+  rx_wf structs protos i a = true ->
+  EngineSM.generate_file (proto_model structs protos i) dict0 a rx_file = Some (rx_ref structs protos i a)
+  /\ nth_error rx_file16 25 = Some (MsgBlock "        " "        " "" rx_body)
+  /\ ref_item16 (with_user a (elements_of_model (proto_model structs protos i))) (MsgBlock "        " "        " "" rx_body)
+     = map (fun x => rx_case (fst (fst x)) (id_text (snd (fst x)))) i.
+Proof. exact rx_engine. Qed.
+Print Assumptions C13_receiver_engine.
+
+(* ... and from the Transmitter template: one function Transmit<Msg> with the retry loop (the text C13_retry's model reads) per message and one
+   call in TestSendAll per message, in interface order. *)
+Theorem C13_transmitter_engine : forall (structs protos : list string) (i : ifc3) (a : Engine.usertags),
+  tx_wf structs protos i a = true ->
+  EngineSM.generate_file (proto_model structs protos i) dict0 a tx_file = Some (tx_ref structs protos i a)
+  /\ nth_error tx_file16 15 = Some (Block KMsg "    " "    " tx_body)
+  /\ ref_item16 (with_user a (elements_of_model (proto_model structs protos i))) (Block KMsg "    " "    " tx_body) = flat_map tx_fn (names_of i)
+  /\ nth_error tx_file16 19 = Some (MsgBlock "        " "        " "   " tx_test_body)
+  /\ ref_item16 (with_user a (elements_of_model (proto_model structs protos i))) (MsgBlock "        " "        " "   " tx_test_body) = map tx_test (names_of i).
+Proof. exact tx_engine. Qed.
+Print Assumptions C13_transmitter_engine.
+
+(* C13_delivery over the engine's output: the k-th case line the engine writes is the case of the k-th message of the interface (its id, its
+   handler), and a message whose type id is that id reaches exactly that handler with its first sizeof bytes. *)
+Theorem C13_delivery_engine : forall (structs protos : list string) (i : ifc3) (a : Engine.usertags),
+  rx_wf structs protos i a = true -> iface_ok (ifc_of i) = true ->
+  EngineSM.generate_file (proto_model structs protos i) dict0 a rx_file = Some (rx_ref structs protos i a)
+  /\ ref_item16 (with_user a (elements_of_model (proto_model structs protos i))) (MsgBlock "        " "        " "" rx_body)
+     = map (fun x => rx_case (fst (fst x)) (id_text (snd (fst x)))) i
+  /\ forall unh msg k name id size, nth_error i k = Some (name, id, size) -> type_id msg = id ->
+       nth_error (ref_item16 (with_user a (elements_of_model (proto_model structs protos i))) (MsgBlock "        " "        " "" rx_body)) k
+         = Some (rx_case name (id_text id))
+       /\ dispatch (ifc_of i) unh msg = [Handler k (take size msg)].
+Proof. exact delivery_engine. Qed.
+Print Assumptions C13_delivery_engine.
+
+Example C13_receiver_engine_nonvacuous :
+  rx_wf [] [] [("Ping"%string, 0, 12); ("Pong"%string, 7, 16)] [] = true
+  /\ map (fun x => rx_case (fst (fst x)) (id_text (snd (fst x)))) [("Ping"%string, 0, 12); ("Pong"%string, 7, 16)]
+     = [("        case 0: OnPingReceived(reinterpret_cast<const Ping*>(&data_buffer[0])); break;" ++ nl_str)%string;
+        ("        case 7: OnPongReceived(reinterpret_cast<const Pong*>(&data_buffer[0])); break;" ++ nl_str)%string].
+Proof. split; vm_compute; reflexivity. Qed.
+Print Assumptions C13_receiver_engine_nonvacuous.
 
 (* The transmitter, for every int8 retries argument and EVERY behaviour of the connection (accept k = answer of the k-th
    SendData call): it returns true iff one of the first retries+1 attempts (none, if retries < 0) is accepted; it stops
